@@ -22,6 +22,7 @@ type mutfn struct {
 	need    string // global that must be present (the module may have failed before defining it)
 	expr    string // expression evaluated with the module's globals as environment
 	pattern string // stable name of the shape
+	site    string // the mutating operation it performs, in the vocabulary of the discovered mutator sites
 }
 
 // pokefn is a module function that mutates a host-supplied value; it must fail iff that value is
@@ -184,20 +185,20 @@ func (g *gen) ops(min, max int) string {
 
 // mutable state forms used inside closures and defaults: literal, the statement that mutates it
 // (always changes it), and its kind
-type stateForm struct{ lit, mut, kind string }
+type stateForm struct{ lit, mut, kind, site string }
 
 func (g *gen) stateForm(name string) stateForm {
 	switch g.r.Intn(5) {
 	case 0:
-		return stateForm{fmt.Sprintf(`{"n": 0, "o": %s}`, g.op()), fmt.Sprintf(`%s["n"] += 1`, name), "dict"}
+		return stateForm{fmt.Sprintf(`{"n": 0, "o": %s}`, g.op()), fmt.Sprintf(`%s["n"] += 1`, name), "dict", "stmt x[key0]+=v"}
 	case 1:
-		return stateForm{"set([1])", fmt.Sprintf(`%s.add(len(%s) + 10)`, name, name), "set"}
+		return stateForm{"set([1])", fmt.Sprintf(`%s.add(len(%s) + 10)`, name, name), "set", "set.add"}
 	case 2:
-		return stateForm{fmt.Sprintf("[0, %s]", g.op()), fmt.Sprintf(`%s[0] += 1`, name), "list"}
+		return stateForm{fmt.Sprintf("[0, %s]", g.op()), fmt.Sprintf(`%s[0] += 1`, name), "list", "stmt x[0]+=v"}
 	case 3:
-		return stateForm{fmt.Sprintf("[%s]", g.op()), fmt.Sprintf(`[%s][0] += [7]`, name), "list"}
+		return stateForm{fmt.Sprintf("[%s]", g.op()), fmt.Sprintf(`[%s][0] += [7]`, name), "list", "stmt x+=[v]"}
 	default:
-		return stateForm{fmt.Sprintf("[%s]", g.op()), fmt.Sprintf(`%s.append(7)`, name), "list"}
+		return stateForm{fmt.Sprintf("[%s]", g.op()), fmt.Sprintf(`%s.append(7)`, name), "list", "list.append"}
 	}
 }
 
@@ -311,17 +312,17 @@ func init() {
 				g.emit("    return struct(get = get, bump = bump)")
 				g.emit("%s = %s(%s)", v, mk, g.op())
 				g.regKeep(v, "struct", false)
-				g.u.mutfns = append(g.u.mutfns, mutfn{v, v + ".bump()", "closure-" + st.kind + "-via-struct"})
+				g.u.mutfns = append(g.u.mutfns, mutfn{v, v + ".bump()", "closure-" + st.kind + "-via-struct", st.site})
 			case 1:
 				g.emit("    return (get, bump)")
 				g.emit("%s = %s(%s)", v, mk, g.op())
 				g.regKeep(v, "tuple", true)
-				g.u.mutfns = append(g.u.mutfns, mutfn{v, v + "[1](2)", "closure-" + st.kind + "-via-tuple"})
+				g.u.mutfns = append(g.u.mutfns, mutfn{v, v + "[1](2)", "closure-" + st.kind + "-via-tuple", st.site})
 			default:
 				g.emit("    return bump")
 				g.emit("%s = %s(%s)", v, mk, g.op())
 				g.regKeep(v, "func", true)
-				g.u.mutfns = append(g.u.mutfns, mutfn{v, v + "()", "closure-" + st.kind})
+				g.u.mutfns = append(g.u.mutfns, mutfn{v, v + "()", "closure-" + st.kind, st.site})
 			}
 			g.regKeep(mk, "func", true)
 			g.feature("closure")
@@ -342,7 +343,7 @@ func init() {
 			}
 			g.regKeep(v, "func", true)
 			g.regKeep(mk, "func", true)
-			g.u.mutfns = append(g.u.mutfns, mutfn{v, v + "(1)", "selfref-closure"})
+			g.u.mutfns = append(g.u.mutfns, mutfn{v, v + "(1)", "selfref-closure", "list.append"})
 			g.feature("selfref-def")
 		}},
 		{"mutual-defs", 3, func(g *gen) {
@@ -359,12 +360,12 @@ func init() {
 				g.emit("    return even")
 				g.emit("%s = %s()", v, mk)
 				g.regKeep(v, "func", true)
-				g.u.mutfns = append(g.u.mutfns, mutfn{v, v + "(3)", "mutual-closures"})
+				g.u.mutfns = append(g.u.mutfns, mutfn{v, v + "(3)", "mutual-closures", "stmt x[key0]+=v"})
 			} else {
 				g.emit("    return struct(even = even, odd = odd)")
 				g.emit("%s = %s()", v, mk)
 				g.regKeep(v, "struct", false)
-				g.u.mutfns = append(g.u.mutfns, mutfn{v, v + ".odd(2)", "mutual-closures-via-struct"})
+				g.u.mutfns = append(g.u.mutfns, mutfn{v, v + ".odd(2)", "mutual-closures-via-struct", "stmt x[key0]+=v"})
 			}
 			g.regKeep(mk, "func", true)
 			g.feature("mutual-defs")
@@ -374,7 +375,7 @@ func init() {
 			st := g.stateForm("acc")
 			lit := st.lit
 			if lv, ok := g.pick(true, "list"); ok && g.r.Intn(4) == 0 {
-				lit, st.mut, st.kind = lv.name, "acc.append(7)", "list-var"
+				lit, st.mut, st.kind, st.site = lv.name, "acc.append(7)", "list-var", "list.append"
 			}
 			call := f + "(1)"
 			switch g.r.Intn(5) {
@@ -396,7 +397,7 @@ func init() {
 				g.emit("_r%d = %s", g.n, call)
 			}
 			g.regKeep(f, "func", true)
-			g.u.mutfns = append(g.u.mutfns, mutfn{f, call, "default-" + st.kind})
+			g.u.mutfns = append(g.u.mutfns, mutfn{f, call, "default-" + st.kind, st.site})
 			g.feature("mutable-default")
 		}},
 		{"bound-method", 5, func(g *gen) {
@@ -405,32 +406,32 @@ func init() {
 			switch g.r.Intn(6) {
 			case 0:
 				g.emit("%s = [%s].append", v, g.ops(1, 2))
-				g.u.mutfns = append(g.u.mutfns, mutfn{v, v + "(5)", "bound-list.append-literal"})
+				g.u.mutfns = append(g.u.mutfns, mutfn{v, v + "(5)", "bound-list.append-literal", "list.append"})
 			case 1:
 				if lv, ok := g.pick(true, "list"); ok {
 					g.emit("%s = %s.append", v, lv.name)
-					g.u.mutfns = append(g.u.mutfns, mutfn{v, v + "(5)", "bound-list.append-var"})
+					g.u.mutfns = append(g.u.mutfns, mutfn{v, v + "(5)", "bound-list.append-var", "list.append"})
 				} else {
 					g.emit("%s = [1].extend", v)
-					g.u.mutfns = append(g.u.mutfns, mutfn{v, v + "([5])", "bound-list.extend-literal"})
+					g.u.mutfns = append(g.u.mutfns, mutfn{v, v + "([5])", "bound-list.extend-literal", "list.extend"})
 				}
 			case 2:
 				g.emit(`%s = {"a": %s}.update`, v, g.op())
-				g.u.mutfns = append(g.u.mutfns, mutfn{v, fmt.Sprintf(`%s({"k%d": 1})`, v, uniq), "bound-dict.update-literal"})
+				g.u.mutfns = append(g.u.mutfns, mutfn{v, fmt.Sprintf(`%s({"k%d": 1})`, v, uniq), "bound-dict.update-literal", "dict.update"})
 			case 3:
 				if dv, ok := g.pick(true, "dict"); ok {
 					g.emit("%s = %s.setdefault", v, dv.name)
-					g.u.mutfns = append(g.u.mutfns, mutfn{v, fmt.Sprintf(`%s("k%d", 1)`, v, uniq), "bound-dict.setdefault-var"})
+					g.u.mutfns = append(g.u.mutfns, mutfn{v, fmt.Sprintf(`%s("k%d", 1)`, v, uniq), "bound-dict.setdefault-var", "dict.setdefault"})
 				} else {
 					g.emit(`%s = {"a": 1}.pop`, v)
-					g.u.mutfns = append(g.u.mutfns, mutfn{v, v + `("a")`, "bound-dict.pop-literal"})
+					g.u.mutfns = append(g.u.mutfns, mutfn{v, v + `("a")`, "bound-dict.pop-literal", "dict.pop"})
 				}
 			case 4:
 				g.emit("%s = set([1, 2]).add", v)
-				g.u.mutfns = append(g.u.mutfns, mutfn{v, fmt.Sprintf("%s(%d)", v, uniq), "bound-set.add-literal"})
+				g.u.mutfns = append(g.u.mutfns, mutfn{v, fmt.Sprintf("%s(%d)", v, uniq), "bound-set.add-literal", "set.add"})
 			default:
 				g.emit("%s = [1, 2, 3].pop", v)
-				g.u.mutfns = append(g.u.mutfns, mutfn{v, v + "()", "bound-list.pop-literal"})
+				g.u.mutfns = append(g.u.mutfns, mutfn{v, v + "()", "bound-list.pop-literal", "list.pop"})
 			}
 			g.regKeep(v, "bm", true)
 			g.feature("bound-method")
@@ -444,10 +445,10 @@ func init() {
 				g.emit("%s = (lambda s: (lambda: s))([%s])", v, g.op())
 			case 2:
 				g.emit("%s = (lambda s: (lambda: s.append(1)))([%s])", v, g.op())
-				g.u.mutfns = append(g.u.mutfns, mutfn{v, v + "()", "lambda-closure-append"})
+				g.u.mutfns = append(g.u.mutfns, mutfn{v, v + "()", "lambda-closure-append", "list.append"})
 			default:
 				g.emit(`%s = lambda k, d = {"n": %s}: d.setdefault(k, 1)`, v, g.op())
-				g.u.mutfns = append(g.u.mutfns, mutfn{v, fmt.Sprintf(`%s("k%d")`, v, 1000+g.n), "lambda-default-setdefault"})
+				g.u.mutfns = append(g.u.mutfns, mutfn{v, fmt.Sprintf(`%s("k%d")`, v, 1000+g.n), "lambda-default-setdefault", "dict.setdefault"})
 			}
 			g.regKeep(v, "func", true)
 			g.feature("lambda")
@@ -510,7 +511,9 @@ func init() {
 		}},
 		{"global-counter", 4, func(g *gen) {
 			c, f := g.fresh("c"), g.fresh("bump")
+			site := "stmt x[key0]+=v"
 			if g.r.Intn(2) == 0 {
+				site = "stmt x[0]+=v"
 				// not registered as an operand: nothing else may reorder it
 				g.emit("%s = [0, %s]", c, g.op())
 				g.emit("def %s():\n    %s[0] += 1", f, c)
@@ -520,7 +523,7 @@ func init() {
 				g.regKeep(c, "dict", false)
 			}
 			g.regKeep(f, "func", true)
-			g.u.mutfns = append(g.u.mutfns, mutfn{f, f + "()", "global-augmented-index"})
+			g.u.mutfns = append(g.u.mutfns, mutfn{f, f + "()", "global-augmented-index", site})
 			g.feature("global-counter")
 		}},
 		{"inplace-fn", 4, func(g *gen) {
@@ -532,7 +535,7 @@ func init() {
 				}
 				g.emit("def %s():\n    g = %s\n    g += [1]", f, lv.name)
 				g.markKeep(lv.name)
-				g.u.mutfns = append(g.u.mutfns, mutfn{f, f + "()", "global-inplace-add"})
+				g.u.mutfns = append(g.u.mutfns, mutfn{f, f + "()", "global-inplace-add", "stmt x+=[v]"})
 			} else {
 				dv, ok := g.pick(true, "dict")
 				if !ok {
@@ -540,7 +543,7 @@ func init() {
 				}
 				g.emit("def %s():\n    g = %s\n    g |= {\"k%d\": 1}", f, dv.name, 1000+g.n)
 				g.markKeep(dv.name)
-				g.u.mutfns = append(g.u.mutfns, mutfn{f, f + "()", "global-inplace-pipe"})
+				g.u.mutfns = append(g.u.mutfns, mutfn{f, f + "()", "global-inplace-pipe", "stmt x|={newkey:v}"})
 			}
 			g.regKeep(f, "func", true)
 			g.feature("inplace-fn")
@@ -551,7 +554,7 @@ func init() {
 			g.emit("def %s():\n    %s.items.append(1)", f, s)
 			g.regKeep(s, "struct", false)
 			g.regKeep(f, "func", true)
-			g.u.mutfns = append(g.u.mutfns, mutfn{f, f + "()", "struct-field-append"})
+			g.u.mutfns = append(g.u.mutfns, mutfn{f, f + "()", "struct-field-append", "list.append"})
 			g.feature("struct-field-fn")
 		}},
 		{"key-closure", 4, func(g *gen) {
@@ -567,19 +570,19 @@ func init() {
 			case 0:
 				g.emit("%s = {%s(): %s}", v, mk, g.op())
 				g.regKeep(v, "dict", false)
-				g.u.mutfns = append(g.u.mutfns, mutfn{v, fmt.Sprintf("[k for k in %s.keys()][0]()", v), "dict-key-closure"})
+				g.u.mutfns = append(g.u.mutfns, mutfn{v, fmt.Sprintf("[k for k in %s.keys()][0]()", v), "dict-key-closure", st.site})
 			case 1:
 				g.emit("%s = {(1, %s()): 2}", v, mk)
 				g.regKeep(v, "dict", false)
-				g.u.mutfns = append(g.u.mutfns, mutfn{v, fmt.Sprintf("[k for k in %s.keys()][0][1]()", v), "dict-key-tuple-closure"})
+				g.u.mutfns = append(g.u.mutfns, mutfn{v, fmt.Sprintf("[k for k in %s.keys()][0][1]()", v), "dict-key-tuple-closure", st.site})
 			case 2:
 				g.emit("%s = set([%s()])", v, mk)
 				g.regKeep(v, "set", false)
-				g.u.mutfns = append(g.u.mutfns, mutfn{v, fmt.Sprintf("[k for k in %s][0]()", v), "set-elem-closure"})
+				g.u.mutfns = append(g.u.mutfns, mutfn{v, fmt.Sprintf("[k for k in %s][0]()", v), "set-elem-closure", st.site})
 			default:
 				g.emit("%s = {[%s].append: 1}", v, g.op())
 				g.regKeep(v, "dict", false)
-				g.u.mutfns = append(g.u.mutfns, mutfn{v, fmt.Sprintf("[k for k in %s.keys()][0](5)", v), "dict-key-bound-method"})
+				g.u.mutfns = append(g.u.mutfns, mutfn{v, fmt.Sprintf("[k for k in %s.keys()][0](5)", v), "dict-key-bound-method", "list.append"})
 			}
 			g.regKeep(mk, "func", true)
 			g.feature("key-closure")
@@ -588,7 +591,7 @@ func init() {
 			v := g.fresh("v")
 			g.emit("%s = set([[%s].append, 3])", v, g.op())
 			g.regKeep(v, "set", false)
-			g.u.mutfns = append(g.u.mutfns, mutfn{v, fmt.Sprintf("[k for k in %s][0](5)", v), "set-elem-bound-method"})
+			g.u.mutfns = append(g.u.mutfns, mutfn{v, fmt.Sprintf("[k for k in %s][0](5)", v), "set-elem-bound-method", "list.append"})
 			g.feature("set-of-bound-method")
 		}},
 		{"json", 1, func(g *gen) {
